@@ -156,6 +156,10 @@ func Harness_settings_precedence() {
 		verifAssert("today:read-with-effective-date-format", perr == nil && o.GlobalConfig.Now.Equal(tt))
 	}
 	// the layout used for printing dates is the layout used for reading them (C14)
+	if !withToday {
+		// without --today the current date is the clock's, whatever else was loaded
+		verifAssert("today:defaults-to-the-clock", !o.GlobalConfig.Now.IsZero())
+	}
 	verifAssert("print-layout=parse-layout", o.ReporterConfig.DateFormat == o.GlobalConfig.DateFormat)
 }
 
